@@ -20,8 +20,7 @@ from vlib import hier as H
 from vlib import runner as R
 from vlib import spec as S
 
-from ovld.mro import Order, typeorder
-from ovld.types import normalize_type
+from vlib.api import Order, normalize_type, typeorder
 
 HIER = {"classes": [
     {"bases": []}, {"bases": [0]}, {"bases": [0], "marks": ["mA"]}, {"bases": [1, 2]}, {"bases": []},
